@@ -350,6 +350,7 @@ func (m *kmachine) canon() string {
 	for _, s := range m.sessions {
 		parts = append(parts, s.fs.scope+":"+s.phase())
 	}
+	sort.Strings(parts) // which session came first does not matter for what the stores hold
 	return fmt.Sprintf("%s|nofetch=%v|s2s=%d|broken=%v", strings.Join(parts, ","), m.nofetch != nil, len(m.s2s), m.broken != "")
 }
 
